@@ -24,6 +24,6 @@ def run(ctx):
     if not q:
         C += PC.text_holes(ctx, own, ks, clauses='c20', timeout=600 if q else 2400)
     C += PC.spell_holes(ctx, own, [0, 17] if q else range(len(P.SPELL)), clauses='c20', alpha='lOIaifn_')
-    C += PC.label_holes(ctx, own, [P.skel('def a(): pass'), P.skel('\ufeffx'), P.skel('a = 1\nx = [')] if q else range(len(P.SKELS)), vis=(4,) if q else (0, 4, 8),
+    C += PC.label_holes(ctx, own, [P.skel('def a(): pass'), P.skel('\ufeffx'), P.skel('a = 1\nx = ['), P.skel('x = 12345')] if q else range(len(P.SKELS)), vis=(4,) if q else (0, 4, 8),
                         clauses=PC.SHARED + ',c13,c19,c20,c20t')
     xh.run_conditions(ctx, C)
